@@ -1,11 +1,11 @@
 """C05 — per-thread results are invariant under interleaving of threads."""
 from .. import vlib
-from ..translate import tr_handlers, tr_kevent
+from ..translate import tr_handlers, tr_kevent, tr_pairing
 from . import pairing_common as pc
 
-TRANSLATORS = [tr_kevent.translate, tr_handlers.translate]
+TRANSLATORS = [tr_kevent.translate, tr_handlers.translate, tr_pairing.translate]
 MODEL_TARGETS = ['theories/PairingCases.vo']
-PROOF_TARGETS = ['props/C05.vo']
+PROOF_TARGETS = ['props/C05.vo', 'theories/PairingRefine.vo']
 PROP_FILE = 'props/C05.v'
 ASSUMPTIONS = [
     'same model assumptions as C04 (association-list tables, dom/dec functions of the code)',
@@ -94,7 +94,7 @@ def run(ctx, model_ok):
         seq = [e for p in progs for e in p]
         hs.append(seq)
         meta.append((s, 'merge', None, [(i, k) for i, p in enumerate(progs) for k in range(len(p))], progs, tids))
-    res = vlib.run_impl('run_pairing.py', {'histories': hs})['results']
+    res = vlib.run_impl('run_pairing.py', {'histories': hs, 'declared': True})['results']
     ctx.evaluations = len(hs)
     ctx.rule = ('sets of 2-4 per-thread programs (syscall START/END/NONE/ALL records, trace-domain records, new-thread and '
                 'exec DATA+STRING pairs incl. STRING without DATA and DATA followed by unrelated records) x solo runs + '
@@ -102,7 +102,7 @@ def run(ctx, model_ok):
                 'get >= 1 delivered trace and >= 1 name is learned')
     # scale: many threads interleaved - each thread's traces are those of its solo run ([START, END] per call)
     sc = [x for x in pc.scale_histories(uni, ctx.quick()) if x[0].startswith('threads')]
-    sres = vlib.run_impl('run_pairing.py', {'histories': [h for _, h, _ in sc]}, timeout=3000)['results']
+    sres = vlib.run_impl('run_pairing.py', {'histories': [h for _, h, _ in sc], 'declared': True}, timeout=3000)['results']
     ctx.evaluations += len(sc)
     for (name, h, exp), r in zip(sc, sres):
         ctx.count('scale:' + name)
